@@ -30,6 +30,8 @@ RULE = (
     'equal to a vertex time bit for bit, or its nextafter neighbour); the chopper list is shuffled and sometimes split '
     'over several chop() calls, interleaved with propagate_to() and __getitem__(distance) queries (also before the '
     'source and behind a chopper that is closer than the current frame, for the error paths). A case is one program; '
+    'typed programs draw dtype (float64/float32/int64/int32) and unit independently for pulse times, pulse wavelengths, '
+    'chopper distances, chopper times and propagate_to / [distance] arguments; '
     'distinct = distinct (pulse, op sequence) bit patterns; non-trivial when at least one _chop call produced an '
     'intersection vertex. Every _chop / propagate_times call made by the real code inside a program is one further '
     'step-level evaluation.'
@@ -47,7 +49,10 @@ ASSUMPTIONS = [
     'validated, not proved: the exact-rational sampling of neutrons (the "iff" on the real floating-point polygons) '
     'skips points within 1e-12 (relative to the frame extent) of a polygon edge or of a window edge',
     'scipp evaluates propagate_times as t + d*(w*m_n/h*1e-10) in binary64 (observed bit-exact; tolerance 2 ulp)',
-    'all quantities in s / angstrom / m, float64 (other units go through scipp.to_unit, not modelled)',
+    'dtypes float64 / float32 / int64 / int32 of every operand are modelled (carrier TV: promotion, single precision '
+    'rounding, the final cast of propagate_times, DTypeError of sc.concat, UnitError for window times not in s) and tied '
+    'bit for bit in canonical units s / angstrom / m; other units (ms, us, nm, m, cm, mm) are judged by the exact-rational '
+    'oracle only (scipp Variable.to(unit=...) itself is not modelled); integers are assumed below 2^24 in magnitude',
 ]
 TRUSTED = [
     'modelled, not verified: chopper_cascade.py propagate_times, _chop, Frame.chop/propagate_to/bounds/subbounds, '
@@ -152,6 +157,14 @@ def mk_source(p):
 # process, not a statement about a frame: bounds() is evaluated for the first BOUNDS_BUDGET frames of a run only.
 BOUNDS_BUDGET = 12000
 _bounds_calls = [0]
+
+
+def bounds_budget():
+    """may Frame.bounds() be evaluated once more in this process? (counts the call)"""
+    if _bounds_calls[0] >= BOUNDS_BUDGET:
+        return False
+    _bounds_calls[0] += 1
+    return True
 
 
 def canon_frame(f):
@@ -551,7 +564,7 @@ def corpus_cases():
 
 def correspond(ctx):
     k = consts()
-    ncases = ctx.n(400, 2000)
+    ncases = ctx.n(400, 1500)
     cases = corpus_cases() + [gen_case(ctx.rng, ctx.count) for _ in range(ncases)]
     impl = []
     chop_calls = {}
@@ -643,6 +656,7 @@ def correspond(ctx):
                          [float(x).hex() for x in c[3]], [float(x).hex() for x in got],
                          'step level: propagate_times differs from the Float model by more than 2 ulp')
     correspond_direct(ctx)
+    _typed().correspond_typed(ctx, bounds_budget)
 
 
 def _rand_poly(rng, nmax=8):
@@ -1175,7 +1189,7 @@ def oracle_case(case, seed, deep, stats=None):
 
 
 def oracle(ctx, deep):
-    n = 200 if deep else ctx.n(120, 1000)
+    n = 200 if deep else ctx.n(120, 800)
     cases = corpus_cases() + [gen_case(ctx.rng) for _ in range(n)]
     cases += [gen_horizontal_cut_case(ctx.rng) for _ in range(40 if deep else ctx.n(25, 150))]
     for case in cases:
@@ -1188,6 +1202,15 @@ def oracle(ctx, deep):
                 continue
             seen.add(key)
             ctx.violation(key, what, {'case': case_json(case), 'sample_seed': seed, 'deep': deep, **(extra or {})})
+    import sys
+
+    _typed().oracle_typed(ctx, deep, sys.modules[__name__], bounds_budget)
+
+
+def _typed():
+    from . import _c11_typed
+
+    return _c11_typed
 
 
 def gen_horizontal_cut_case(rng):
@@ -1218,6 +1241,10 @@ def gen_horizontal_cut_case(rng):
 def replay(ctx, payload):
     w = payload.get('witness', {})
     key = payload.get('key', '')
+    if 'typed_case' in w:
+        import sys
+
+        return _typed().replay_typed(ctx, payload, sys.modules[__name__], bounds_budget)
     if 'case' not in w:
         print('no case in witness; nothing to replay')
         return False
